@@ -41,6 +41,7 @@ func isWebRequest(r *http.Request) (typ string, enc string, ok bool) {
 type webWriter struct {
 	w           http.ResponseWriter
 	resp        io.Writer
+	respCloser  io.Closer // base64 encoder in text mode
 	seenHeaders map[string]bool
 	typ         string // grpcWeb or grpcWebText
 	enc         string // proto or json
@@ -50,16 +51,18 @@ type webWriter struct {
 
 func newWebWriter(w http.ResponseWriter, typ, enc string) *webWriter {
 	var resp io.Writer = w
+	var respCloser io.Closer
 	if typ == grpcWebText {
-		resp = base64.NewEncoder(base64.StdEncoding, resp)
-
+		b64 := base64.NewEncoder(base64.StdEncoding, resp)
+		resp, respCloser = b64, b64
 	}
 
 	return &webWriter{
-		w:    w,
-		typ:  typ,
-		enc:  enc,
-		resp: resp,
+		w:          w,
+		typ:        typ,
+		enc:        enc,
+		resp:       resp,
+		respCloser: respCloser,
 	}
 }
 
@@ -134,6 +137,12 @@ func (w *webWriter) flushWithTrailer() {
 	if w.wroteHeader || w.wroteResp {
 		if err := w.writeTrailer(); err != nil {
 			return // nothing
+		}
+		// Flush the partial quantum buffered by the base64 encoder.
+		if w.respCloser != nil {
+			if err := w.respCloser.Close(); err != nil {
+				return // nothing
+			}
 		}
 	}
 	w.Flush()
